@@ -92,8 +92,10 @@ def run(tier, seed, replay_path=None):
     items += [((6,), 'eof', None, False), ((2, 6), 'eof', None, False), ((7,), 'eof', None, False), ((2, 7), 'silent', None, False),
               ((BIG,), 'eof', None, False), ((BIG, 4), 'silent', None, False), ((2,), 'eof', None, True), ((0, 6), 'eof', None, True)]
     ck.fork_map(items, lambda c, it: explore_item(c, it, tier))
+    from . import runtime_checks
+    runtime_checks.run_accept_loop(ck, tier)
     native_slots(ck)
-    for need in ('ending: quit', 'ending: quitq', 'ending: oversized', 'ending: clean/eof', 'ending: partial/eof', 'ending: partial/error',
+    for need in ('accept loop: some connection waits', 'accept loop: all served', 'ending: quit', 'ending: quitq', 'ending: oversized', 'ending: clean/eof', 'ending: partial/eof', 'ending: partial/error',
                  'ending: corrupt/eof', 'ending: idle timeout fired', 'ending: write failed'):
         ck.covers.setdefault(need, False)
     return ck.finish()
